@@ -26,6 +26,8 @@ class Registry:
         self.exceptions = set()
         self.constructors = {}
         self._parse_cache = {}
+        self.rec_decls = {}      # name -> (params, ret, ast node)
+        self.rec_built = {}
 
     def parse_expr(self, s):
         n = self._parse_cache.get(s)
@@ -48,10 +50,45 @@ class Registry:
         src = inspect.getsource(module)
         tree = ast.parse(src)
         wanted = set(getattr(module, 'SPEC_FUNCTIONS', []))
+        rec = getattr(module, 'REC_FUNCTIONS', {})
         for s in tree.body:
-            if isinstance(s, ast.FunctionDef) and s.name in wanted:
+            if isinstance(s, ast.FunctionDef) and s.name in rec:
+                params, ret = rec[s.name]
+                self.rec_decls[s.name] = (params, ret, s)
+                self.spec_py[s.name] = getattr(module, s.name)
+            elif isinstance(s, ast.FunctionDef) and s.name in wanted:
                 self.spec_fns[s.name] = MFn('inline', s.name, node=s, frame=None, is_spec=True)
                 self.spec_py[s.name] = getattr(module, s.name)
+
+    def build_rec(self, V):
+        """recursive spec functions -> z3 RecFunction, body obtained by executing the
+        Python definition symbolically once (recursive calls map to the z3 function)"""
+        from .calls import inline_call
+        for name, (params, ret, node) in self.rec_decls.items():
+            if name in self.rec_built:
+                V.spec_fns[name] = self.rec_built[name]
+                continue
+            zf = z3.RecFunction(name, *([sort_of(t) for _, t in params] + [sort_of(ret)]))
+            fn = MFn('rec', name, params=params, ret=ret, zfn=zf)
+            self.rec_built[name] = fn
+        for name, (params, ret, node) in self.rec_decls.items():
+            fn = self.rec_built[name]
+            V.spec_fns[name] = fn
+            if getattr(fn, 'defined', False):
+                continue
+            for n2, f2 in self.rec_built.items():
+                V.spec_fns[n2] = f2
+            st = State()
+            args = [const(t, 'rec!%s!%s' % (name, pn)) for pn, t in params]
+            body = inline_call(V, MFn('inline', name, node=node, frame=None, is_spec=True), args, {}, st, node)
+            for cnd in st.pc:
+                chk = z3.Solver()
+                chk.set('timeout', 3000)
+                chk.add(z3.Not(cnd))
+                if chk.check() != z3.unsat:
+                    raise Unsupported('recursive spec %s has side conditions' % name)
+            z3.RecAddDefinition(fn.zfn, [a.z for a in args], pack(body, ret))
+            fn.defined = True
 
 
 def find_function(tree, qualname):
@@ -208,9 +245,15 @@ def verify_function(contract, reg, repo=REPO):
     V.loop_ids = number_loops(func)
     V.int_nonneg = set()
     V.ghost_card = lambda st, v: None
+    def ykey_type():
+        ent = V.entry.fork()
+        k = V.eval_spec(contract.yield_key, ent, {'c': fresh(contract.yields, 'c')})
+        return type_of(k)
+    V.ykey_type = ykey_type
     V.oblige_spec_nonempty = lambda st, sep, node: V.may_raise(
         st, z3.Length(sep) > 0, 'ValueError', 'empty separator', node)
     try:
+        reg.build_rec(V)
         install_axioms(V)
         st = State()
         a = func.args
